@@ -241,4 +241,44 @@ func solveAll(ts []*fnTrans, outDir string, timeout time.Duration, cross bool, w
 	}
 	close(jch)
 	wg.Wait()
+	// Second pass: an obligation that ended undecided (timeout / unknown / solver error) is tried once more with three times the limit
+	// and little competition (3 at a time) - on a loaded machine a goal that needs a few seconds can miss the first limit. Only a proof
+	// changes the verdict; at most 10 obligations are retried (a change that breaks more than that is not a load artefact).
+	var retry []job
+	for _, j := range jobs {
+		if j.o.Kind != "cover" && (j.o.Result == "timeout" || j.o.Result == "unknown" || j.o.Result == "error") && j.o.VCFile != "" {
+			retry = append(retry, j)
+		}
+	}
+	if len(retry) == 0 || len(retry) > 10 || os.Getenv("NSQVC_NO_RETRY") != "" {
+		return
+	}
+	sem2 := make(chan struct{}, 3*len(solvers))
+	var wg2 sync.WaitGroup
+	lim := make(chan struct{}, 3)
+	for _, j := range retry {
+		wg2.Add(1)
+		go func(j job) {
+			defer wg2.Done()
+			lim <- struct{}{}
+			defer func() { <-lim }()
+			weakFile := strings.TrimSuffix(j.o.VCFile, ".smt2") + ".weak.smt2"
+			if _, err := os.Stat(weakFile); err != nil {
+				weakFile = ""
+			}
+			best, all := decide(j.o.VCFile, weakFile, 3*timeout, false, sem2)
+			if best.result == "unsat" {
+				j.o.Result, j.o.Solver, j.o.TimeMS = best.result, best.solver+" (second pass)", best.ms
+				j.o.Confirmed = 1
+			}
+			for _, a := range all {
+				o := a.output
+				if len(o) > 2000 {
+					o = o[:2000] + "…"
+				}
+				j.o.Outputs[a.solver+" second pass"] = fmt.Sprintf("%s (%d ms)\n%s", a.result, a.ms, o)
+			}
+		}(j)
+	}
+	wg2.Wait()
 }
